@@ -47,6 +47,7 @@ type Env struct {
 	World     string // plain world binary
 	RaceWorld string // -race world binary ("" when not built)
 	FineWorld string // world built with rule R4 ("" when not built)
+	TestWorld string // the same world as a real go-test binary (testing-mode episodes)
 	FS        string // root of the simulated file system (homes, cwds)
 	Seams     *instrument.Report
 	VerifDir  string
@@ -130,6 +131,19 @@ func buildWorlds(verifDir, repoDir string, race, fine bool, mutate func(ovDir st
 	} else {
 		return env, fmt.Errorf("go.mod: %w", err)
 	}
+	buildTest := func(out string) error {
+		args := []string{"test", "-c", "-modfile", modfile, "-tags", "verif", "-overlay", rep.OverlayFile, "-vet=off", "-o", out, "./cmd/simworld"}
+		cmd := exec.Command("go", args...)
+		cmd.Dir = verifDir
+		cmd.Env = goEnv()
+		var eb bytes.Buffer
+		cmd.Stderr = &eb
+		cmd.Stdout = &eb
+		if err := cmd.Run(); err != nil {
+			return fmt.Errorf("go %s: %v\n%s", strings.Join(args, " "), err, eb.String())
+		}
+		return nil
+	}
 	build := func(out string, extra ...string) error {
 		ov := rep.OverlayFile
 		if len(extra) > 0 && extra[0] == "FINE" {
@@ -152,9 +166,12 @@ func buildWorlds(verifDir, repoDir string, race, fine bool, mutate func(ovDir st
 	}
 	env.World = filepath.Join(scratch, "simworld")
 	var wg sync.WaitGroup
-	var e1, e2, e3 error
+	var e1, e2, e3, e4 error
 	wg.Add(1)
 	go func() { defer wg.Done(); e1 = build(env.World) }()
+	env.TestWorld = filepath.Join(scratch, "simworld.test")
+	wg.Add(1)
+	go func() { defer wg.Done(); e4 = buildTest(env.TestWorld) }()
 	if fine {
 		env.FineWorld = filepath.Join(scratch, "simworld.fine")
 		wg.Add(1)
@@ -174,6 +191,9 @@ func buildWorlds(verifDir, repoDir string, race, fine bool, mutate func(ovDir st
 	}
 	if e3 != nil {
 		return env, e3
+	}
+	if e4 != nil {
+		return env, e4
 	}
 	for _, d := range []string{"home/sim", "cwd"} {
 		_ = os.MkdirAll(filepath.Join(env.FS, d), 0o755)
@@ -221,8 +241,12 @@ func (e *Env) execWith(scs []*scen.Scenario, timeout time.Duration, extraEnv []s
 	argv0 := "simworld"
 	var extra []string
 	if first.World.Mode == "testing" {
+		// a real go-test binary of the world; -test.run matches nothing and TestMain never starts the framework
 		argv0 = "simworld.test"
-		extra = append(extra, "-test.sim=1")
+		extra = append(extra, "-test.run=^$")
+		if !first.World.Race && !(first.World.Fine && e.FineWorld != "") && e.TestWorld != "" {
+			bin = e.TestWorld
+		}
 	}
 	home := e.fsPath("/home/sim")
 	if first.World.Home != "" {
